@@ -86,6 +86,7 @@ func runC17(c *Ctx) {
 	c.rule("S2", "writer interval I(p) and reader threshold T(p) are linear in the same period field: I ≤ p, T − I ≥ p, comparison is age > T, both sides in the same unit", 3)
 	c.rule("S3", "IsStale: constant false only on a failed filesystem call; the empty directory is judged by its own age; all heartbeat files must be stale; nil time info is not stale", 4)
 	c.rule("S5", "every removal of the lock made on the strength of IsStale() claims the judged directory atomically first (rename to a private name), so that a lock taken over meanwhile by a live holder is not removed", 1)
+	c.rule("S8", "LockWithTimeout: the contexts of the attempt are not registered in a store that the attempt itself can cancel (the take-over of a stale lock goes through Unlock); on failure they are cancelled, on success handed to the lock's store", 3)
 	c.rule("S7", "a heartbeat file whose age cannot be read (removed since the listing, transient failure) counts as a sign of life, never as stale and never as absent", 1)
 	c.rule("S6", "IsStale reads the age of the files it finds in the lock directory, not of a file named after the observer's own id", 1)
 	c.rule("S4", "ReleaseIfStale calls Unlock only on the true side of IsStale()", 1)
@@ -478,6 +479,7 @@ func runC17(c *Ctx) {
 		}
 		c.check(badPath == "", "S6", fname(isStaleM)+"/judges-what-is-there", c.pos(isStaleM.Pos()), "ages are read from the files listed in the lock directory (or the directory itself)",
 			"the age read at "+badPath+" is that of a path the observer computed itself (heartBeatFile of its own id) rather than of a file found in the lock directory: holder and observer whose ids differ by surrounding white space share the lock directory (lockPath trims the id) but name the heartbeat file differently, the observer falls back to the directory's age and reports a live lock stale")
+		c.c17AttemptStore()
 		// S7: a heartbeat file that cannot be examined says nothing about the holder: it counts as a sign of life.
 		okU, whyU, posU := c.c17UnreadableIsAlive(isStaleM, allStale, isStaleF)
 		c.check(okU, "S7", fname(isStaleM)+"/unreadable-is-alive", posU, "a heartbeat file that cannot be examined makes the verdict 'not stale'", whyU)
@@ -765,4 +767,96 @@ func (c *Ctx) c17UnreadableIsAlive(isStaleM, combiner, isStaleF *ssa.Function) (
 		}
 	}
 	return false, "the outcome of reading the age of a heartbeat file (" + c.ipos(stat) + ") is not examined in a recognised way", c.ipos(stat)
+}
+
+// c17AttemptStore (S8): "once the holder dies … ReleaseIfStale followed by a new acquire then succeeds" — for every acquire.
+// LockWithTimeout runs Lock under parallelisation.RunActionWithTimeoutAndCancelStore, which registers the cancel functions
+// of the attempt in the store it is given. Lock → TryLock → (stale, override) ReleaseIfStale → Unlock → cancelStore.Cancel():
+// if that is the same store, the attempt cancels itself and the stale lock is never recovered.
+func (c *Ctx) c17AttemptStore() {
+	f := c.fn(fsPkgRel, "(*RemoteLockFile).LockWithTimeout")
+	lock := c.fn(fsPkgRel, "(*RemoteLockFile).Lock")
+	if f == nil || lock == nil {
+		return
+	}
+	c.FuncsSeen[fname(f)] = true
+	var run *ssa.Call
+	allInstrs(f, func(in ssa.Instruction) {
+		if cl, ok := in.(*ssa.Call); ok && strings.HasSuffix(calleeFull(&cl.Call), "parallelisation.RunActionWithTimeoutAndCancelStore") {
+			run = cl
+		}
+	})
+	key := fname(f)
+	if run == nil {
+		c.ok("S8", key+"/own-store", c.pos(f.Pos()), "the attempt does not register its contexts in any store")
+		c.ok("S8", key+"/failure-cancels", c.pos(f.Pos()), "n/a")
+		c.ok("S8", key+"/success-hands-over", c.pos(f.Pos()), "n/a")
+		return
+	}
+	store := run.Call.Args[2]
+	isLockStore := func(v ssa.Value) bool {
+		_, ok := fieldLoad(resolveValue(v), "RemoteLockFile", "cancelStore")
+		return ok
+	}
+	// does the action reach a Cancel() of the lock's own store?
+	reachesCancel := false
+	seen := map[*ssa.Function]bool{}
+	var walk func(g *ssa.Function, d int)
+	walk = func(g *ssa.Function, d int) {
+		if g == nil || seen[g] || d > 6 || g.Blocks == nil {
+			return
+		}
+		seen[g] = true
+		allInstrs(g, func(in ssa.Instruction) {
+			ci, ok := in.(ssa.CallInstruction)
+			if !ok {
+				return
+			}
+			cc := ci.Common()
+			if strings.HasSuffix(calleeFull(cc), "CancelFunctionStore).Cancel") && len(cc.Args) > 0 && isLockStore(cc.Args[0]) {
+				reachesCancel = true
+			}
+			if h := staticCallee(cc); h != nil && inPkg(fsPkgRel)(h) {
+				walk(h, d+1)
+			}
+		})
+	}
+	walk(lock, 0)
+	c.check(!(isLockStore(store) && reachesCancel), "S8", key+"/own-store", c.ipos(run), "the attempt's contexts are kept in a store the attempt cannot cancel",
+		"the contexts of the attempt are registered in the lock's own cancel store, which the attempt itself cancels when it takes over a stale lock (Lock → TryLock → ReleaseIfStale → Unlock → cancelStore.Cancel()): the removal of the stale lock is abandoned and LockWithTimeout returns 'cancelled' — a dead holder's lock is never recovered through LockWithTimeout")
+	if isLockStore(store) {
+		// nothing to hand over
+		c.ok("S8", key+"/failure-cancels", c.ipos(run), "the lock's own store: cancelled by Unlock")
+		c.ok("S8", key+"/success-hands-over", c.ipos(run), "the lock's own store")
+		return
+	}
+	// own store: cancelled where the attempt failed; handed to the lock's store where it succeeded
+	errs := errResultsOf(run)
+	failCancels, successHands := false, false
+	allInstrs(f, func(in ssa.Instruction) {
+		cl, ok := in.(*ssa.Call)
+		if !ok || len(errs) == 0 {
+			return
+		}
+		n := calleeFull(&cl.Call)
+		if strings.HasSuffix(n, "CancelFunctionStore).Cancel") && sameValue(cl.Call.Args[0], store) && onNonNilSide(errs[0], cl) {
+			failCancels = true
+		}
+		if strings.HasSuffix(n, "CancelFunctionStore).RegisterCancelFunction") && isLockStore(cl.Call.Args[0]) && onNilSide(errs[0], cl) {
+			for _, e := range variadicElems(cl.Call.Args[1]) {
+				if mc, isMC := stripConv(e).(*ssa.MakeClosure); isMC {
+					// bound method value store.Cancel
+					for _, b := range mc.Bindings {
+						if sameValue(b, store) {
+							successHands = true
+						}
+					}
+				}
+			}
+		}
+	})
+	c.check(failCancels, "S8", key+"/failure-cancels", c.ipos(run), "a failed attempt cancels its contexts",
+		"where the attempt failed its own store is not cancelled: if Lock succeeded just as the time ran out, the heart beat of a lock nobody holds keeps running — the lock is never stale and never released")
+	c.check(successHands, "S8", key+"/success-hands-over", c.ipos(run), "the attempt's store is registered in the lock's store on success",
+		"where the attempt succeeded its store is not handed to the lock's cancel store: Unlock() does not stop the heart beat, which goes on writing after the release")
 }
